@@ -385,3 +385,61 @@ def r3_4(rep):
     lets = [n for n in cg.walk() if n["k"] == "Let" and n["pat"].get("name") == "packed"]
     rep.check(bool(lets) and cg.canon(lets[0]["init"], 5).startswith("ir::comp::CompInfo::is_packed(param:self"), "layout-packed-is-is_packed",
               "the struct layout side derives `packed` from the same `is_packed`", cg.loc(cg.root))
+
+
+@RULES.rule("R3.5", "a bit-field moves to the next aligned boundary iff it would straddle its storage unit (System V / Itanium rule)", floor=5)
+def r3_5(rep):
+    """Oracle (psABI): a bit-field must live entirely in a storage unit of its declared type, so when clang's offset is
+    not used the field is realigned exactly when `(offset mod align_bits) + width > size_bits` (or the width is 0).
+    The comparison is read in linear normal form, so `width > size*8 - (offset & mask)` is the same rule, while `>=`
+    (a field that exactly fills the unit is pushed out) or a missing zero-width case are not."""
+    from c02 import lin
+    prog = rep.prog
+    al = rep.need(prog.fn("ir::comp::bitfields_to_allocation_units"), "bitfields_to_allocation_units")
+    realign = [n for n in al.walk() if n["k"] == "Assign" and strip(n["l"]).get("name") == "offset_in_struct"]
+    rep.need(realign, "the realignment of offset_in_struct")
+    for n in realign:
+        r = strip(n["r"])
+        ok = r.get("k") == "Call" and (r.get("callee") or "").endswith("align_to") and len(r["args"]) == 2 and \
+            strip(r["args"][0]).get("name") == "offset_in_struct" and "Layout::align" in al.canon(r["args"][1], 8) and "lit:8" in al.canon(r["args"][1], 8)
+        rep.check(ok, "realign-to-type-alignment", "the field is moved to align_to(offset, align_of(type) * 8) (found %s)" % al.canon(r, 5)[:120], al.loc(n))
+        # the condition: a disjunction containing `width == 0` and the straddle test
+        conds = [g for p, k, g in al.guards(n) if k == "cond" and p]
+        cmps, zero = [], False
+        for g in conds:
+            for x in al.walk(g):
+                if x["k"] == "Binary" and x["op"] in (">", ">=", "<", "<="):
+                    cmps.append(x)
+                if x["k"] == "Binary" and x["op"] == "==" and "bitfield_width" in al.canon(x, 6) and "lit:0" in al.canon(x, 6):
+                    zero = True
+            for x in al.walk(g):
+                if x["k"] == "Local" and al.local_init(x["id"]) is not None:
+                    for y in al.walk(al.local_init(x["id"])):
+                        if y["k"] == "Binary" and y["op"] in (">", ">=", "<", "<="):
+                            cmps.append(y)
+                        if y["k"] == "Binary" and y["op"] == "==" and "bitfield_width" in al.canon(y, 6) and "lit:0" in al.canon(y, 6):
+                            zero = True
+        rep.check(zero, "zero-width-realigns", "a zero-width bit-field always moves to the next boundary", al.loc(n))
+        if not rep.check(len(cmps) == 1, "straddle-test-present", "one ordering comparison decides the overflow (found %d)" % len(cmps), al.loc(n)):
+            continue
+        c = cmps[0]
+        l, rr = dict(lin(al, c["l"])), dict(lin(al, c["r"]))
+        if c["op"] in ("<", "<="):
+            l, rr = rr, l
+        strict = c["op"] in (">", "<")
+        form = dict(l)
+        for k, v in rr.items():
+            form[k] = form.get(k, 0) - v
+        form = {k: v for k, v in form.items() if v != 0}
+        pos = sorted(k for k, v in form.items() if v == 1)
+        neg = sorted(k for k, v in form.items() if v == -1)
+        shape = len(form) == 3 and len(pos) == 2 and len(neg) == 1
+        m = [k for k in pos if "&" in k and "offset_in_struct" in k and "align" in k]
+        w = [k for k in pos if "bitfield_width" in k and "&" not in k]
+        s = [k for k in neg if "size" in k and "8" in k and "*" in k]
+        rep.check(shape and len(m) == 1 and len(w) == 1 and len(s) == 1, "straddle-test-terms",
+                  "the test is (offset & (align*8 - 1)) + width  vs  size*8 (normal form: +%s  -%s)" % (pos, neg), al.loc(c))
+        rep.check(strict, "straddle-test-strict", "a field that exactly fills the rest of its storage unit stays where it is (`>`; found `%s`)" %
+                  ({">": ">", "<": "<(swapped)", ">=": ">=", "<=": "<=(swapped)"}[c["op"]]), al.loc(c))
+        if m:
+            rep.check(re.search(r"-1\*1", m[0]) is not None and "8" in m[0], "straddle-mask", "the mask is align*8 - 1 (found %s)" % m[0][:100], al.loc(c))
